@@ -1,1 +1,376 @@
-//! (placeholder; filled in by the check that owns it)
+//! Reference interpreter for Breakpad `STACK WIN` records (property C07): frame-data program
+//! strings and the FPO form.
+//!
+//! Written from the module documentation at the top of
+//! `breakpad-symbols/src/sym_file/walker.rs` ("# STACK WIN", "# STACK WIN frame pointer mode",
+//! "# STACK WIN expression mode") and from the statement of property C07 — not from the
+//! evaluator. Two rules that the module documentation only *names* are taken from the prose
+//! comments next to the code, because the property statement lists them explicitly:
+//! the `@` rule (`.raSearch = $ebp + 4` when the program text contains `@`) and the FPO
+//! "leftover return address" skip (context frame only: if the word at the return slot equals
+//! the callee's own `eip`, the return address is one word further up). The `=tok` spelling
+//! (a token that starts with `=` and is longer is `=` followed by the rest) is likewise from
+//! the property statement.
+//!
+//! Where documentation and property leave the outcome open, the reference says so:
+//! `Open` (nothing but totality is checked) or `or_none` (the computed registers, or a clean
+//! failure, are both accepted).
+use std::collections::BTreeMap;
+
+pub trait WinEnv {
+    /// callee register by bare name, `None` if not valid
+    fn callee_reg(&self, name: &str) -> Option<u64>;
+    /// 32-bit word of stack memory
+    fn mem(&self, addr: u64) -> Option<u32>;
+    fn has_grand_callee(&self) -> bool;
+    fn grand_callee_param_size(&self) -> u32;
+}
+
+#[derive(Clone, Copy, Debug, PartialEq, Eq, Hash)]
+pub struct Sizes {
+    pub params: u32,
+    pub saved: u32,
+    pub locals: u32,
+}
+
+pub const OUTPUT_REGS: [&str; 6] = ["eip", "esp", "ebp", "ebx", "esi", "edi"];
+
+#[derive(Clone, Debug, PartialEq, Eq, Hash)]
+pub enum WinExpect {
+    /// must fail cleanly
+    Fail(&'static str),
+    /// not determined by the documentation: only totality is required
+    Open(&'static str),
+    /// exactly these caller registers are reported (value `None` = reported, value unspecified);
+    /// with `or_none = Some(reason)` a clean failure is accepted as well
+    Regs { regs: BTreeMap<&'static str, Option<u32>>, or_none: Option<&'static str> },
+}
+
+#[derive(Clone, Debug)]
+enum V {
+    Var(String),
+    /// None = unspecified value (signedness of / and %)
+    Int(Option<u32>),
+    Undef,
+}
+
+fn literal(tok: &str) -> Option<i128> {
+    let (neg, digits) = match tok.strip_prefix('-') {
+        Some(d) => (true, d),
+        None => (false, tok),
+    };
+    if digits.is_empty() || !digits.bytes().all(|b| b.is_ascii_digit()) || digits.len() > 30 {
+        return None;
+    }
+    let mut v: i128 = 0;
+    for b in digits.bytes() {
+        v = v * 10 + (b - b'0') as i128;
+    }
+    Some(if neg { -v } else { v })
+}
+
+enum Stop {
+    Fail(&'static str),
+    Open(&'static str),
+}
+
+fn frame_size(sz: Sizes, gcps: u32) -> Option<u32> {
+    // frame_size = local_size + saved_register_size + grand_callee_parameter_size
+    let s = sz.locals as u64 + sz.saved as u64 + gcps as u64;
+    u32::try_from(s).ok()
+}
+
+/// Frame-data program string.
+pub fn eval_program(prog: &str, sz: Sizes, env: &dyn WinEnv) -> WinExpect {
+    let mut or_none: Option<&'static str> = None;
+    let (Some(esp), Some(ebp)) = (env.callee_reg("esp"), env.callee_reg("ebp")) else {
+        return WinExpect::Fail("callee-esp-or-ebp-unknown");
+    };
+    let (esp, ebp) = (esp as u32, ebp as u32);
+    let gcps = env.grand_callee_param_size();
+    let uses_align = prog.contains('@');
+    let search = if uses_align {
+        if frame_size(sz, gcps).is_none() {
+            // frame_size is not needed under the @ rule; an implementation may still reject it
+            or_none = Some("frame-size-overflow-unused");
+        }
+        if ebp > u32::MAX - 4 {
+            or_none = Some("raSearch-overflow");
+        }
+        ebp.wrapping_add(4)
+    } else {
+        let Some(fs) = frame_size(sz, gcps) else { return WinExpect::Fail("frame-size-overflow") };
+        if esp.checked_add(fs).is_none() {
+            or_none = Some("raSearch-overflow");
+        }
+        esp.wrapping_add(fs)
+    };
+    let mut vars: BTreeMap<String, Option<u32>> = BTreeMap::new();
+    vars.insert("$esp".into(), Some(esp));
+    vars.insert("$ebp".into(), Some(ebp));
+    if let Some(b) = env.callee_reg("ebx") {
+        vars.insert("$ebx".into(), Some(b as u32));
+    }
+    vars.insert(".cbParams".into(), Some(sz.params));
+    vars.insert(".cbCalleeParams".into(), Some(gcps));
+    vars.insert(".cbSavedRegs".into(), Some(sz.saved));
+    vars.insert(".cbLocals".into(), Some(sz.locals));
+    vars.insert(".raSearch".into(), Some(search));
+    vars.insert(".raSearchStart".into(), Some(search));
+
+    let mut toks: Vec<&str> = Vec::new();
+    for t in prog.split_ascii_whitespace() {
+        if t.len() > 1 && t.starts_with('=') {
+            toks.push(&t[..1]);
+            toks.push(&t[1..]);
+        } else {
+            toks.push(t);
+        }
+    }
+    let mut st: Vec<V> = Vec::new();
+    let r = (|| -> Result<(), Stop> {
+        fn int(v: V, vars: &BTreeMap<String, Option<u32>>) -> Result<Option<u32>, Stop> {
+            match v {
+                V::Int(i) => Ok(i),
+                V::Var(n) => vars.get(&n).copied().ok_or(Stop::Fail("undefined-variable-read")),
+                V::Undef => Err(Stop::Fail("undef-used-as-integer")),
+            }
+        }
+        for t in toks {
+            match t {
+                "+" | "-" | "*" | "/" | "%" | "@" => {
+                    let r = int(st.pop().ok_or(Stop::Fail("stack-underflow"))?, &vars)?;
+                    let l = int(st.pop().ok_or(Stop::Fail("stack-underflow"))?, &vars)?;
+                    let v = match t {
+                        "+" => l.zip(r).map(|(l, r)| l.wrapping_add(r)),
+                        "-" => l.zip(r).map(|(l, r)| l.wrapping_sub(r)),
+                        "*" => l.zip(r).map(|(l, r)| l.wrapping_mul(r)),
+                        "/" | "%" => match r {
+                            Some(0) => return Err(Stop::Fail("zero-divisor")),
+                            None => return Err(Stop::Open("divisor-unspecified")),
+                            Some(r) => match l {
+                                Some(l) if l < 1 << 31 && r < 1 << 31 => Some(if t == "/" { l / r } else { l % r }),
+                                _ => None,
+                            },
+                        },
+                        _ => match r {
+                            None => return Err(Stop::Open("alignment-unspecified")),
+                            Some(r) => {
+                                if r.count_ones() != 1 {
+                                    return Err(Stop::Fail("alignment-not-power-of-two"));
+                                }
+                                l.map(|l| l - l % r)
+                            }
+                        },
+                    };
+                    st.push(V::Int(v));
+                }
+                "=" => {
+                    let r = st.pop().ok_or(Stop::Fail("stack-underflow"))?;
+                    let l = st.pop().ok_or(Stop::Fail("stack-underflow"))?;
+                    let V::Var(name) = l else { return Err(Stop::Fail("assignment-to-non-variable")) };
+                    match r {
+                        V::Undef => {
+                            vars.remove(&name);
+                        }
+                        other => {
+                            let v = int(other, &vars)?;
+                            vars.insert(name, v);
+                        }
+                    }
+                }
+                "^" => {
+                    let p = int(st.pop().ok_or(Stop::Fail("stack-underflow"))?, &vars)?;
+                    let Some(p) = p else { return Err(Stop::Open("address-unspecified")) };
+                    let v = env.mem(p as u64).ok_or(Stop::Fail("unreadable-memory"))?;
+                    st.push(V::Int(Some(v)));
+                }
+                ".undef" => st.push(V::Undef),
+                _ => {
+                    if t.starts_with('$') || t.starts_with('.') {
+                        st.push(V::Var(t.to_string()));
+                    } else if let Some(v) = literal(t) {
+                        if v < i32::MIN as i128 || v > i32::MAX as i128 {
+                            // documented "limited to i64 precision"; the arithmetic is 32-bit
+                            return Err(Stop::Open("literal-outside-i32"));
+                        }
+                        st.push(V::Int(Some(v as i32 as u32)));
+                    } else if !t.is_empty() && t.bytes().all(|b| b.is_ascii_alphanumeric()) {
+                        // documented as a variable name, see the carve-out in DESIGN C07
+                        return Err(Stop::Open("bare-variable-name"));
+                    } else {
+                        return Err(Stop::Fail("unknown-token"));
+                    }
+                }
+            }
+        }
+        Ok(())
+    })();
+    match r {
+        Err(Stop::Fail(w)) => return WinExpect::Fail(w),
+        Err(Stop::Open(w)) => return WinExpect::Open(w),
+        Ok(()) => {}
+    }
+    if !st.is_empty() && or_none.is_none() {
+        // "(Should it be an error if the stack isn't empty at the end? ... *shrug*)"
+        or_none = Some("leftover-operands");
+    }
+    let mut regs = BTreeMap::new();
+    for r in OUTPUT_REGS {
+        if let Some(v) = vars.get(&format!("${r}")) {
+            regs.insert(r, *v);
+        }
+    }
+    WinExpect::Regs { regs, or_none }
+}
+
+const FOUR_GIB: u64 = 1 << 32;
+
+/// FPO form.
+pub fn eval_fpo(allocates_base_pointer: bool, sz: Sizes, env: &dyn WinEnv) -> WinExpect {
+    let gcps = env.grand_callee_param_size();
+    let Some(fs) = frame_size(sz, gcps) else { return WinExpect::Fail("frame-size-overflow") };
+    let Some(esp) = env.callee_reg("esp") else { return WinExpect::Fail("callee-esp-unknown") };
+    // $eip := *($esp + frame_size)
+    let mut eip_addr = esp + fs as u64;
+    if eip_addr + 4 > FOUR_GIB {
+        return WinExpect::Open("return-slot-past-4GiB");
+    }
+    let Some(mut eip) = env.mem(eip_addr) else { return WinExpect::Fail("return-slot-unreadable") };
+    if !env.has_grand_callee() {
+        let Some(callee_eip) = env.callee_reg("eip") else { return WinExpect::Open("callee-eip-unknown") };
+        if eip as u64 == callee_eip {
+            eip_addr += 4;
+            if eip_addr + 4 > FOUR_GIB {
+                return WinExpect::Open("return-slot-past-4GiB");
+            }
+            let Some(e) = env.mem(eip_addr) else { return WinExpect::Fail("return-slot-unreadable") };
+            eip = e;
+        }
+    }
+    if eip_addr + 4 >= FOUR_GIB {
+        // the caller's esp does not fit 32 bits: wrap or fail is not documented
+        return WinExpect::Open("caller-esp-past-4GiB");
+    }
+    let mut regs: BTreeMap<&'static str, Option<u32>> = BTreeMap::new();
+    let mut or_none = None;
+    if allocates_base_pointer {
+        // $ebp := *($esp + grand_callee_parameter_size + saved_register_size - 8)
+        let a = esp as i128 + gcps as i128 + sz.saved as i128 - 8;
+        if a < 0 {
+            return WinExpect::Fail("ebp-slot-below-zero");
+        }
+        if a as u64 + 4 > FOUR_GIB {
+            return WinExpect::Open("ebp-slot-past-4GiB");
+        }
+        let Some(b) = env.mem(a as u64) else { return WinExpect::Fail("ebp-slot-unreadable") };
+        regs.insert("ebp", Some(b));
+    } else {
+        // "Assume both ebp and ebx are preserved (if they were previously valid)"
+        match env.callee_reg("ebp") {
+            Some(b) => {
+                regs.insert("ebp", Some(b as u32));
+            }
+            None => or_none = Some("callee-ebp-unknown"),
+        }
+        if let Some(b) = env.callee_reg("ebx") {
+            regs.insert("ebx", Some(b as u32));
+        }
+    }
+    regs.insert("eip", Some(eip));
+    // $esp := $esp + frame_size + 4 (one word more after the leftover skip)
+    regs.insert("esp", Some((eip_addr + 4) as u32));
+    WinExpect::Regs { regs, or_none }
+}
+
+// ---------------------------------------------------------------------------------------------
+// record selection (documentation: comments in parser.rs `insert_win_stack_info` and
+// mod.rs `walk_frame`)
+
+#[derive(Clone, Debug, PartialEq, Eq)]
+pub enum WinKind {
+    FrameData(String),
+    Fpo(bool),
+}
+#[derive(Clone, Debug)]
+pub struct WinRecord {
+    pub address: u64,
+    pub size: u32,
+    pub sizes: Sizes,
+    pub kind: WinKind,
+}
+
+#[derive(Clone, Debug)]
+pub enum Selected {
+    None,
+    /// the record that unwinds the address; the flag says that a frame-data record was chosen
+    /// while an FPO record covers the address too (no documented fallback if the former fails)
+    Record(WinRecord, bool),
+    /// exact duplicates with different contents / framedata that fails while an FPO record
+    /// also covers the address: not determined
+    Open,
+}
+
+/// Apply the documented overlap repair to the records of ONE kind, in file order.
+fn repair(recs: &[WinRecord]) -> Vec<WinRecord> {
+    let mut out: Vec<WinRecord> = Vec::new();
+    for r in recs {
+        if r.size == 0 || r.address.checked_add(r.size as u64).is_none() {
+            continue; // invalid range: dropped
+        }
+        let (rs, re) = (r.address, r.address + r.size as u64 - 1);
+        if let Some(last) = out.last_mut() {
+            let (ls, le) = (last.address, last.address + last.size as u64 - 1);
+            if ls <= re && rs <= le {
+                if rs > ls {
+                    // the next record defines the length of the previous one
+                    last.size = (rs - ls) as u32;
+                } else if (ls, le) != (rs, re) {
+                    continue; // bad intersection: dropped
+                }
+            }
+        }
+        out.push(r.clone());
+    }
+    out
+}
+
+/// Which record unwinds `rel`? `records` in file order; only well-typed, consistent records.
+pub fn select(records: &[WinRecord], rel: u64) -> Selected {
+    let fd: Vec<WinRecord> = records.iter().filter(|r| matches!(r.kind, WinKind::FrameData(_))).cloned().collect();
+    let fpo: Vec<WinRecord> = records.iter().filter(|r| matches!(r.kind, WinKind::Fpo(_))).cloned().collect();
+    let find = |v: &[WinRecord]| -> Result<Option<WinRecord>, ()> {
+        let hits: Vec<&WinRecord> = v.iter().filter(|r| rel >= r.address && rel - r.address < r.size as u64).collect();
+        match hits.len() {
+            0 => Ok(None),
+            1 => Ok(Some(hits[0].clone())),
+            _ => {
+                if hits.iter().all(|h| h.sizes == hits[0].sizes && h.kind == hits[0].kind) {
+                    Ok(Some(hits[0].clone()))
+                } else {
+                    Err(())
+                }
+            }
+        }
+    };
+    // "Preferentially use framedata over fpo"
+    let f = find(&repair(&fpo));
+    match find(&repair(&fd)) {
+        Err(()) => Selected::Open,
+        Ok(Some(r)) => Selected::Record(r, !matches!(f, Ok(None))),
+        Ok(None) => match f {
+            Err(()) => Selected::Open,
+            Ok(Some(r)) => Selected::Record(r, false),
+            Ok(None) => Selected::None,
+        },
+    }
+}
+
+pub fn eval_record(r: &WinRecord, env: &dyn WinEnv) -> WinExpect {
+    match &r.kind {
+        WinKind::FrameData(p) => eval_program(p, r.sizes, env),
+        WinKind::Fpo(b) => eval_fpo(*b, r.sizes, env),
+    }
+}
+
+pub use crate::refcfi::block_on;
